@@ -26,8 +26,9 @@ def tla_set(xs):
 
 
 def cfg_common(p):
-    return ("SPECIFICATION Spec\nCONSTANTS\n  Seed = %d\n  Orders = %s\n  RawSets = %s\n  MultiSets = %s\n  RotElems = %s\n"
-            % (p["seed"], tla_set(p["orders"]), tla_set(p["rawsets"]), tla_set(p["multisets"]), tla_set(p["rotelems"])))
+    return ("SPECIFICATION Spec\nCONSTANTS\n  Seed = %d\n  Orders = %s\n  RawSets = %s\n  MultiSets = %s\n  RotElems = %s\n  RCoefs = %s\n"
+            % (p["seed"], tla_set(p["orders"]), tla_set(p["rawsets"]), tla_set(p["multisets"]), tla_set(p["rotelems"]),
+               tla_set(p["rcoefs"])))
 
 
 def run_harness_sharded(exe, datap, casesp, outbase, nshards, ncases):
@@ -74,6 +75,8 @@ def short_steps(steps):
             out.append("fit(%s,%s)" % (s["data"], s["opt"]))
         elif s["op"] == "copy":
             out.append("copy")
+        elif s["op"] == "support":
+            out.append("support(r=%.2f)" % (s["opt"] / 100.0))
         else:
             src = s["src"]["d"] if s["src"]["t"] == "d" else "a%d" % s["src"]["a"]
             out.append("%s[%s](%s)" % (s["op"], s["who"], src))
@@ -94,9 +97,37 @@ def refit_lineage(r):
         elif st["op"] == "copy":
             state["c"] = state["o"]
             out[i + 1] = state["o"]
+        elif st["op"] == "support":
+            out[i + 1] = state["o"]
         else:
             t = state.get(st["who"])
             if t is None and st["src"]["t"] == "a":
+                t = taint[st["src"]["a"] - 1]
+            taint.append(t)
+            out[i + 1] = t
+    return out, taint
+
+
+def blockfit_lineage(r):
+    """(by step, by array): True when a Hermite object that was FITTED while its change-of-support coefficient was
+    below 1 (constructed with rCoef < 1, or re-fitted after a support change) is involved in that step / array."""
+    out = {}
+    cur = 100
+    state = {"o": False, "c": False}
+    taint = []
+    for i, st in enumerate(r["steps"]):
+        if st["op"] == "support":
+            cur = st["opt"]
+            out[i + 1] = state["o"]
+        elif st["op"] == "fit":
+            state["o"] = cur < 100
+            out[i + 1] = state["o"]
+        elif st["op"] == "copy":
+            state["c"] = state["o"]
+            out[i + 1] = state["o"]
+        else:
+            t = state.get(st["who"], False)
+            if not t and st["src"]["t"] == "a":
                 t = taint[st["src"]["a"] - 1]
             taint.append(t)
             out[i + 1] = t
@@ -109,7 +140,7 @@ def explore(ck, plan, stats, workers):
     # 1. scenarios from TLC
     mcfg = os.path.join(w, "mc_%s.cfg" % tag)
     open(mcfg, "w").write(cfg_common(plan) + "  Kinds = %s\n  MaxLen = %d\nCONSTRAINT Emit\n"
-                          "INVARIANT TypeOK NormalFormsIrreducible RoundTripIsIdentity NoResidue RotationGroup SameIsSymmetricOnKeys\n"
+                          "INVARIANT SupportState TypeOK NormalFormsIrreducible RoundTripIsIdentity NoResidue RotationGroup SameIsSymmetricOnKeys\n"
                           "CHECK_DEADLOCK FALSE\n" % (tla_set(plan["kinds"]), plan["maxlen"]))
     casesp = os.path.join(w, "cases_%s.ndjson" % tag)
     cases = []
@@ -161,8 +192,10 @@ def explore(ck, plan, stats, workers):
             ropt = bystep.get(f["step"])
             if ropt is None and f["tag"] == "same" and f["j"] >= 1:      # the array it is compared with
                 ropt = byarr[f["j"] - 1]
+            bstep, barr = blockfit_lineage(r)
+            bfit = bool(bstep.get(f["step"], False)) or (f["tag"] == "same" and f["j"] >= 1 and barr[f["j"] - 1])
             rec = {"kind": rj["kind"], "sig": "%s:%s" % (f["tag"], f["name"]), "op": f["op"], "opt": f["opt"],
-                   "refit_same_object": ropt is not None, "refit_opt": ropt, "masked": f["masked"], "hasna": f["hasna"], "e": f["e"],
+                   "refit_same_object": ropt is not None, "refit_opt": ropt, "rcoef": f["rcoef"], "fitted_in_block_state": bfit, "masked": f["masked"], "hasna": f["hasna"], "e": f["e"],
                    "base": f["base"], "fitdata": f["fitdata"], "step": f["step"], "array": f["k"]}
             used = sorted(set([f["base"], f["fitdata"]] + [s["data"] for s in cs["steps"] if s["op"] == "fit"]) & set(data["data"].keys()))
             replay = {"plan": {k: v for k, v in plan.items() if k != "exe"}, "scenario": short_steps(cs["steps"]), "case": cs, "observed": r,
@@ -174,6 +207,7 @@ def explore(ck, plan, stats, workers):
                 nrej += 1
     # statistics / vacuity counters
     # worst error among the comparisons TLC accepted (documents the margin of the accuracy constants)
+    blocksteps = {}
     rejected = set()
     for rj in jemitted:
         for f in rj["fails"]:
@@ -189,6 +223,8 @@ def explore(ck, plan, stats, workers):
             for f in ob["forms"]:
                 if (r["id"], "form", i + 1, f["name"], 0) not in rejected:
                     worst(k + " entry points", f["e"])
+            if "rt" in ob and (r["id"], "roundtrip", i + 1, "", 0) not in rejected:
+                worst(k + " per-step round trip", ob["rt"]["e"])
             for a_ in ob["alg"]:
                 if a_["name"] not in ("out-mean=0", "out-cov=I") and (r["id"], "alg", i + 1, a_["name"], 0) not in rejected:
                     worst(k + " " + a_["name"], a_["e"])
@@ -203,7 +239,15 @@ def explore(ck, plan, stats, workers):
                 worst(k + " exact image residual", s_["res"])
         stats["cases"][k] += 1
         nfit = 0
-        for st, ob in zip(r["steps"], r["obs"]):
+        # apply steps of a Hermite object whose support coefficient is < 1 at that moment
+        cur = 100
+        blocksteps.setdefault(r["id"], set())
+        for i_, st in enumerate(r["steps"]):
+            if st["op"] == "support":
+                cur = st["opt"]
+            elif st["op"] in ("fwd", "inv") and st["who"] == "o" and cur < 100 and k == "AH":
+                blocksteps[r["id"]].add(i_ + 1)
+        for i_, (st, ob) in enumerate(zip(r["steps"], r["obs"])):
             stats["ops"][k + ":" + st["op"]] += 1
             if st["op"] == "fit":
                 nfit += 1
@@ -214,6 +258,10 @@ def explore(ck, plan, stats, workers):
                 stats["elements"] += f["n"]
             for a in ob["alg"]:
                 stats["alg"][k + ":" + a["name"]] += 1
+            if "rt" in ob:
+                stats["roundtrip_steps"][k] += 1
+                if ob["rt"]["n"] > 0 and (i_ + 1) in blocksteps[r["id"]]:
+                    stats["roundtrip_block_support"][k] += 1
             if "rin" in ob:
                 stats["mono"][k + ":" + st["op"]] += 1
                 stats["mono_elements"] += sum(1 for x in ob["rin"] if x >= 0)
@@ -249,24 +297,25 @@ def run(tier):
     workers = int(os.environ.get("VERIF_C18_WORKERS", "6"))
     seed = vlib.seed() % 1000
     full = dict(orders=[5, 12, 20, 40], rawsets=["skew", "ties", "tsel"], multisets=["m1", "m2", "m3"],
-                rotelems=[1, 2, 3, 4, 5, 6, 7, 8, 9, 10, 11], kinds=ALL_KINDS)
+                rotelems=[1, 2, 3, 4, 5, 6, 7, 8, 9, 10, 11], rcoefs=[100, 90, 70, 50], kinds=ALL_KINDS)
     plans = []
     if tier == "quick":
         plans.append(dict(full, tag="len3", seed=seed, maxlen=3))
         # copy / re-fit aliasing needs four steps: one order, two data sets
         plans.append(dict(full, tag="len4small", seed=seed + 1, maxlen=4, orders=[20], rawsets=["skew", "tsel"],
-                          multisets=["m2", "m3"], rotelems=[2, 5, 7, 10], kinds=["AH", "AE", "PCA", "MAF", "ROT"]))
+                          multisets=["m2", "m3"], rotelems=[2, 5, 7, 10], rcoefs=[100, 70], kinds=["AH", "AE", "PCA", "MAF", "ROT"]))
     else:
         plans.append(dict(full, tag="len4hermite", seed=seed, maxlen=4, orders=[5, 12, 20, 30, 40], kinds=["AH"]))
         plans.append(dict(full, tag="len4others", seed=seed, maxlen=4, kinds=["AE", "PCA", "MAF", "NS", "ROT"]))
         plans.append(dict(full, tag="len5small", seed=seed + 1, maxlen=5, orders=[20], rawsets=["tsel"], multisets=["m2"],
-                          rotelems=[2, 5, 7, 10]))
+                          rotelems=[2, 5, 7, 10], rcoefs=[100, 50]))
         for d in range(2, 6):
             plans.append(dict(full, tag="len3s%d" % d, seed=seed + d, maxlen=3, orders=[5, 8, 12, 20, 30, 40]))
     stats = {"cases": collections.Counter(), "ops": collections.Counter(), "refits": collections.Counter(),
              "forms": collections.Counter(), "alg": collections.Counter(), "mono": collections.Counter(),
              "same": collections.Counter(), "fresh": collections.Counter(), "exact": collections.Counter(),
-             "roundtrips": collections.Counter(), "worst": {}, "elements": 0, "mono_elements": 0, "comparisons": 0, "nontrivial": 0}
+             "roundtrips": collections.Counter(), "roundtrip_steps": collections.Counter(),
+             "roundtrip_block_support": collections.Counter(), "worst": {}, "elements": 0, "mono_elements": 0, "comparisons": 0, "nontrivial": 0}
     for p in plans:
         explore(ck, dict(p, exe=exe), stats, workers)
     if os.environ.get("VERIF_C18_DUMP"):      # development aid: all unlisted disagreements, one per line
@@ -281,7 +330,8 @@ def run(tier):
         need.append(("exact" if k == "ROT" else "fresh", k))
         need.append(("same", k))
     need += [("mono", "AH:fwd"), ("mono", "AH:inv"), ("mono", "AE:fwd"), ("mono", "AE:inv"), ("mono", "NS:fwd"),
-             ("alg", "AH:hermite-gram"), ("alg", "PCA:z2f'Cz2f=I"), ("alg", "MAF:z2f'Cz2f=I"), ("alg", "ROT:RinvR=I"),
+             ("alg", "AH:hermite-gram"), ("ops", "AH:support"), ("forms", "AH:anamPointToBlock-coeff"),
+             ("alg", "AH:variance->r->variance"), ("roundtrip_block_support", "AH"), ("alg", "PCA:z2f'Cz2f=I"), ("alg", "MAF:z2f'Cz2f=I"), ("alg", "ROT:RinvR=I"),
              ("forms", "AH:db-name"), ("forms", "AE:db-locator"), ("forms", "PCA:public-matrices"), ("forms", "NS:db-name"),
              ("forms", "ROT:angles")]
     for cat, key in need:
@@ -295,6 +345,8 @@ def run(tier):
     ck.cov["algebraic_identities_evaluated"] = dict(stats["alg"])
     ck.cov["monotonicity_checks"] = dict(stats["mono"])
     ck.cov["round_trips_back_to_a_data_set"] = dict(stats["roundtrips"])
+    ck.cov["per_step_round_trips"] = dict(stats["roundtrip_steps"])
+    ck.cov["per_step_round_trips_in_block_support_state"] = dict(stats["roundtrip_block_support"])
     ck.cov["worst_accepted_error_x100_log10"] = dict(sorted(stats["worst"].items()))
     ck.cov["array_elements_compared"] = stats["elements"]
     ck.cov["rank_pattern_elements"] = stats["mono_elements"]
